@@ -386,10 +386,10 @@ class Ref(object):
         return n
 
 
-def build_real(xtuml, schema, id_generator=None):
+def build_real(xtuml, schema, id_generator=None, factory=None):
     '''A real metamodel for *schema* through the public definition API (what
     the loader does for CREATE TABLE / CREATE ROP / CREATE UNIQUE INDEX).'''
-    m = xtuml.MetaModel(id_generator or xtuml.IntegerGenerator())
+    m = (factory or xtuml.MetaModel)(id_generator or xtuml.IntegerGenerator())
     for kind, attrs in schema.classes:
         m.define_class(kind, list(attrs))
     for kind, name, attrs in schema.uniques:
